@@ -12,8 +12,6 @@ PROP = 'C10'
 HEADER = 'From Coq Require Import List NArith Bool.\nImport ListNotations.\nFrom VDrv Require Import Alloc.\nOpen Scope N_scope.\n'
 COQ_TARGETS = ['props/C10.vo']
 MAXFREE = 128
-KNOWN_KEY = 'buddy-live-page-rehanded'
-KNOWN_BUDDY = 'buddy allocator hands out a physical page that is still live (merge bit not toggled when a block from a higher level is split)'
 
 
 def npages(ps, n):
@@ -37,10 +35,12 @@ def monitor(case):
             if o.get('valid'):
                 return tag + 'the driver panicked on a call inside its contract and capacity: ' + o['crash']
             return None
-        snap = o['snap']
-        devs = snap['devs']
+        snap = o.get('snap') or {}
+        devs = snap.get('devs') or []
+        if not devs:
+            return None   # partial observation (no snapshot): nothing can be judged from here on
         pages = {}
-        for p in snap['pages']:
+        for p in snap.get('pages') or []:
             pages[(p[0], p[1])] = p
         # ---- state invariant
         seen_pa = {}
@@ -66,7 +66,7 @@ def monitor(case):
                     if f % ps or not (d['base'] <= f < d['base'] + d['size']):
                         return tag + 'free list of device %d holds %#x, not a page of that device' % (di, f)
         if o.get('skip'):
-            prev_pages, prev_devs, prev_bufs = pages, devs, snap['bufs']
+            prev_pages, prev_devs, prev_bufs = pages, devs, snap.get('bufs') or []
             continue
         # ---- effect of this call
         changed = {k for k in set(pages) | set(prev_pages) if pages.get(k) != prev_pages.get(k)}
@@ -169,7 +169,12 @@ def monitor(case):
             if k in pages:
                 pa = pages[k][2]
                 if pa in prev_pa and prev_pa[pa] != k:
-                    return tag + 'physical page %#x handed out to (%d,%#x) while live as (%d,%#x)' % ((pa,) + k + prev_pa[pa])
+                    k2 = prev_pa[pa]
+                    # Remap/Distribute give the previous pages of the range back and may take them again
+                    # within the same call; it is a double hand-out only if the old owner still has the page
+                    if k2 in pages and pages[k2][2] == pa:
+                        return tag + 'physical page %#x handed out to (%d,%#x) while live as (%d,%#x)' % ((pa,) + k + k2)
+                    continue
                 if pa in prev_pa:
                     continue
                 if not case.get('buddy') and prev_devs is not None:
@@ -177,7 +182,7 @@ def monitor(case):
                     if dv < len(prev_devs) and prev_devs[dv]['nfree'] <= MAXFREE and pa not in prev_devs[dv]['free']:
                         return tag + 'physical page %#x was handed out but was not on the free list of device %d' % (pa, dv)
         # buffer bookkeeping of the contexts
-        bufs = snap['bufs']
+        bufs = snap.get('bufs') or []
         for ci, row in enumerate(bufs):
             old = prev_bufs[ci] if ci < len(prev_bufs) else []
             trip = lambda r: [tuple(r[i:i + 3]) for i in range(0, len(r), 3)]
@@ -218,7 +223,7 @@ def run_impl(binary, cases=None, seed=1, n=100, buddy_every=0):
 
 def nontrivial(case):
     ops = [o['op'] for o in case['ops']]
-    return ops.count('alloc') + ops.count('allocu') >= 3 and 'free' in ops and len(case['ops'][-1]['snap']['pages']) >= 1
+    return ops.count('alloc') + ops.count('allocu') >= 3 and 'free' in ops and len(((case['ops'][-1].get('snap') or {}).get('pages')) or []) >= 1
 
 
 def slim(case, keep=3):
@@ -296,18 +301,9 @@ def main(argv):
     # ---- property monitor on what the implementation did
     bad = [(i, monitor(c)) for i, c in enumerate(cases)]
     bad = [(i, m) for i, m in bad if m]
-    # known finding (buddy allocator): matcher = a buddy-allocator history whose violation is a physical
-    # page mapped twice / handed out while live.  Random buddy histories are excluded from the monitor
-    # (they only feed the model correspondence); the corpus witness runs every time.
-    def is_known(i, m):
-        return cases[i].get('buddy') and ('mapped twice' in m or 'while live' in m)
-    known = [(i, m) for i, m in bad if is_known(i, m)]
-    bad = [(i, m) for i, m in bad if not is_known(i, m) and not (cases[i].get('buddy') and i >= ncorpus)]
-    if known:
-        i, m = known[0]
-        rep.known_finding('[%s] %s; witness: %s' % (KNOWN_KEY, KNOWN_BUDDY, m), key=KNOWN_KEY,
-                          replay_obj={'property': PROP, 'what': m, 'case': slim(cases[i])})
-
+    # the buddy allocator's double hand-out (former known finding buddy-live-page-rehanded) is repaired
+    # (fix 986fea68): buddy histories are judged by the monitor like all others; the former witnesses stay
+    # in the corpus as regressions.
     # ---- correspondence with the model
     lst = [c for c in cases if not c.get('buddy')]
     bud = [c for c in cases if c.get('buddy')]
@@ -345,7 +341,10 @@ def main(argv):
         c = strip(base)
         c['ops'] = [{k: o[k] for k in ('op', 'c', 'n', 'a', 'd', 'ids') if k in o} for o in ops]
         out, _ = run_impl(binary, cases=[c])
-        return bool(out) and monitor(out[0]) is not None
+        try:
+            return bool(out) and monitor(out[0]) is not None
+        except Exception:
+            return False   # a shrunk history the monitor cannot judge is not a failing input
 
     if bad:
         i, msg = bad[0]
